@@ -56,6 +56,25 @@ func c17Build() (root *c17Node, present map[string]bool) {
 var c17Paths = []string{
 	"d", "d.V", "d.S", "d.B", "d.Next", "d.Next.V", "d.Next.S", "d.Next.Next.V", "d.M", "d.M.k", "d.M.k.V", `d.M["k"]`, `d.M["k"].V`,
 	"d.M.zz", "d.M.zz.V", "d.I", "d.L", "d.L[0]", "d.L[5]", "d.Nope", "d.Nope.X", "d.u", "nope", "nope.x", "d.V.X", `d.L["x"]`, "d.M[0]",
+	// evaluation that fails inside Go's runtime rather than in jet (unhashable key,
+	// integer modulo by zero in an index): still just "not set"
+	"anyKey[sliceKey]", "d.L[1%zero]",
+	// maps keyed by a defined string / integer type
+	"langs.en", `langs["en"]`, "langs.de", "langs.fr", "hits[idk]",
+}
+
+type c17Lang string
+type c17ID int64
+
+// c17Extra: variables for the paths that do not start at d.
+func c17Extra(vars VarMap, present map[string]bool) {
+	vars.Set("anyKey", map[interface{}]int{"k": 1})
+	vars.Set("sliceKey", []int{1})
+	vars.Set("zero", 0)
+	vars.Set("langs", map[c17Lang]string{"en": "x", "de": ""})
+	vars.Set("hits", map[c17ID]int{7: 0})
+	vars.Set("idk", int64(7))
+	present["langs.en"], present[`langs["en"]`], present["langs.de"], present["hits[idk]"] = true, true, true, true
 }
 
 // H_C17_paths: isset(P) for 27 access paths (fields, chains, indexes, map keys; valid,
@@ -85,6 +104,11 @@ func H_C17_paths() {
 	default:
 		src = `{{ isset(one, ` + path + `) }}`
 	}
+	if path == "anyKey[sliceKey]" || path == "d.L[1%zero]" {
+		// piped, the operand is evaluated before isset sees it, and jet lets Go runtime
+		// errors of ordinary evaluation propagate: only the direct forms are claimed
+		vfAssume(form == 0 || form == 2)
+	}
 	set := hxSet(nil, "/m.jet", src)
 	vars := make(VarMap)
 	if root != nil {
@@ -93,6 +117,7 @@ func H_C17_paths() {
 		vars.Set("d", root) // typed nil pointer
 	}
 	vars.Set("one", 1)
+	c17Extra(vars, present)
 	out, err := hxExec(set, "/m.jet", vars, nil)
 	if form == 1 || form >= 3 {
 		// the piped form evaluates its operand before isset sees it: an operand that cannot
@@ -204,6 +229,7 @@ func H_C17_pairs() {
 	set := hxSet(nil, "/m.jet", src)
 	vars := make(VarMap)
 	vars.Set("d", root)
+	c17Extra(vars, present)
 	out, err := hxExec(set, "/m.jet", vars, nil)
 	vfAssert(err == nil, "isset never fails")
 	if both {
